@@ -18,6 +18,11 @@ pub const VERIF_ROOT: &str = "/verif";
 /// Where evidence and replay files go: /verif, unless VERIF_OUT redirects them (used when the
 /// monitors are tried against a seeded defect in a scratch copy, so that the committed evidence
 /// is not overwritten).
+/// Reduced workloads (set by the driver for the AddressSanitizer pass, which is 5-10x slower).
+pub fn reduced() -> bool {
+    std::env::var("VERIF_REDUCED").is_ok()
+}
+
 pub fn out_root() -> PathBuf {
     std::env::var("VERIF_OUT").ok().map(PathBuf::from).unwrap_or_else(|| PathBuf::from(VERIF_ROOT))
 }
